@@ -35,6 +35,20 @@ def generate(rng, n, tier):
         zs = [float(rng.randint(0, 30)) for _ in range(k)]   # heights must not matter (planimetric)
         ts = sorted(rng.choice(range(100, 100 + 2 * k)) for _ in range(k))   # repeated timestamps allowed
         ms = [rng.choice([0, 0, 500]) for _ in range(k)]
+        r2 = rng.random()
+        if k >= 3 and r2 < 0.3:
+            # boundary class: the two neighbours of an interior fix coincide (out-and-back) and / or share one instant
+            i = rng.randrange(1, k - 1)
+            if rng.random() < 0.7:
+                pts[i + 1] = list(pts[i - 1])
+            if rng.random() < 0.7:
+                ts[i] = ts[i + 1] = ts[i - 1]
+                ms[i] = ms[i + 1] = ms[i - 1]
+                ts = sorted(ts)
+        if r2 > 0.9:
+            ts[1] = ts[0]; ms[1] = ms[0]                      # zero elapsed time at the first end
+            if rng.random() < 0.5:
+                pts[1] = list(pts[0])
         out.append({'pts': pts, 'z': zs, 't': ts, 'ms': ms})
     return out
 
